@@ -302,7 +302,8 @@ pub fn plan_for(id: &str) -> Option<Plan> {
             level: "exploration",
             rule: "HUB part (fee distributor): NewEpoch by anyone on the clock alphabet against the exact model, see C09; EPOCH part: real epoch-manager + 0..3 hook receivers, each run draws duration (>= 1 day), genesis offset, start id, registered hooks, op weights, fault switch and a history (<=200 steps) of CreateEpoch (single, repeated in one block, several in one tx) / AddHook / RemoveHook / UpdateConfig / hook-fails-or-recovers on the clock alphabet (before genesis, at genesis, boundary -1ns/0/+1ns, k durations late, same block); a case counts as distinct non-trivial when a step leaves a not yet seen (epoch id, start, duration, hooks, failing hooks, owner) state",
             // the fee-distributor half of C20 is added here as a second PlanPart
-            parts: vec![scen::epoch::epoch_part(), scen::hub::hub_part_c20()],
+            // (third part: the distributor's stored epochs converted by its real `migrate` from the pre-0.9.0 layout)
+            parts: vec![scen::epoch::epoch_part(), scen::hub::hub_part_c20(), PlanPart { scen: scen::migrate::migrate_part().scen, quick_runs: 40, thorough_runs: 2_000 }],
             real: vec!["fee_distributor + fee_collector + whale_lair + factories + router + vaults (real, HUB part)", "epoch-manager (real, from /repo)", "cw-controllers Hooks/Admin (real)", "white-whale-std from /repo/packages (patched over the registry copy)"],
             stubbed: {
                 let mut v = STUBS.to_vec();
